@@ -40,7 +40,7 @@ func TestC19OracleSelfCheck(t *testing.T) {
 	if c19LayoutErr != nil {
 		t.Fatal(c19LayoutErr)
 	}
-	mk := func(s string) (d rmathDec) { return c19MustDec(s) }
+	mk := func(s string) (d c19DecT) { return c19MustDec(s) }
 	x, y := mk("1.5"), mk("25e-7")
 	ex := c19Exacts(c19MustRatOf(x), c19MustRatOf(y))
 	classes := func(op int, r c19Res) map[string]bool {
@@ -71,8 +71,8 @@ func TestC19OracleSelfCheck(t *testing.T) {
 	}
 	// 33 correct digits of 1/3 are not enough, 34 are
 	third := c19Exacts(c19MustRatOf(mk("1")), c19MustRatOf(mk("3")))
-	r33 := c19Res{hasDec: true, dec: mk("0." + repeat("3", 33))}
-	r34 := c19Res{hasDec: true, dec: mk("0." + repeat("3", 34))}
+	r33 := c19Res{hasDec: true, dec: mk("0." + c19Repeat("3", 33))}
+	r34 := c19Res{hasDec: true, dec: mk("0." + c19Repeat("3", 34))}
 	if v, _, _ := c19Judge(c19OpQuo, third, &r33); len(v) == 0 {
 		t.Fatal("33-digit quotient accepted")
 	}
